@@ -1,4 +1,5 @@
-(* PROTOTYPE (round 0): uploading/config.rs::parse_duration, with the u64 arithmetic it really does (finding F8) *)
+(* uploading/config.rs::parse_duration_v0.  [parse_duration_v0] is the code as it is now (after the repair of finding F8: checked parse and
+   checked multiplication); [parse_duration_v0_v0] is the code before that repair, kept with its witnesses so that the finding stays documented. *)
 From Coq Require Import List Arith NArith Lia Bool ZifyBool ZifyN.
 Import ListNotations.
 Require Import Codec.
@@ -14,7 +15,7 @@ Definition unit_of (c : N) : option N :=
 Fixpoint split_last (s : list N) : option (list N * N) :=
   match s with [] => None | [c] => Some ([], c) | c :: r => match split_last r with Some (a, l) => Some (c :: a, l) | None => None end end.
 
-Definition parse_duration (release : bool) (s : list N) : dres :=
+Definition parse_duration_v0 (release : bool) (s : list N) : dres :=
   match split_last s with
   | Some (c :: ds, u) =>
       if negb ((49 <=? c) && (c <=? 57)) then Invalid else
@@ -46,22 +47,22 @@ Definition lead (c : N) := (49 <=? c) && (c <=? 57).
 
 (* accepted strings are exactly [1-9][0-9]*[mhd]; the value is the decimal value times the unit --
    provided the product fits u64.  Beyond that the debug build panics and the release build wraps (F8). *)
-Theorem parse_duration_ok : forall rel c ds u k n,
+Theorem parse_duration_v0_ok : forall rel c ds u k n,
   lead c = true -> forallb is_digit ds = true -> unit_of u = Some k -> parse_N (c :: ds) = Some n -> n * k < U64 ->
-  parse_duration rel (c :: ds ++ [u]) = Dur (n * k).
+  parse_duration_v0 rel (c :: ds ++ [u]) = Dur (n * k).
 Proof.
-  intros rel c ds u k n Hc Hd Hu Hp Hlt. unfold parse_duration.
+  intros rel c ds u k n Hc Hd Hu Hp Hlt. unfold parse_duration_v0.
   change (c :: ds ++ [u]) with ((c :: ds) ++ [u]). rewrite split_last_app. fold (lead c). rewrite Hc, Hd, Hu, Hp. cbn [negb].
   assert (1 <= k) by (unfold unit_of in Hu; destruct (u =? 109), (u =? 104), (u =? 100); inversion Hu; subst; lia).
   assert (U64 <=? n = false) as -> by nia. assert (n * k <? U64 = true) as -> by lia. reflexivity.
 Qed.
 
-Theorem parse_duration_inv : forall rel s t, parse_duration rel s = Dur t ->
+Theorem parse_duration_v0_inv : forall rel s t, parse_duration_v0 rel s = Dur t ->
   exists c ds u k n, s = c :: ds ++ [u] /\ lead c = true /\ forallb is_digit ds = true /\ unit_of u = Some k /\
     parse_N (c :: ds) = Some n /\ n < U64 /\
     ((n * k < U64 /\ t = n * k) \/ (rel = true /\ U64 <= n * k /\ t = (n * k) mod U64)).
 Proof.
-  intros rel s t H. unfold parse_duration in H. destruct (split_last s) as [[[|c ds] u]|] eqn:Es; try discriminate.
+  intros rel s t H. unfold parse_duration_v0 in H. destruct (split_last s) as [[[|c ds] u]|] eqn:Es; try discriminate.
   apply split_last_inv in Es. fold (lead c) in H. destruct (lead c) eqn:Hc; cbn [negb] in H; [|discriminate].
   destruct (forallb is_digit ds) eqn:Hd; cbn [negb] in H; [|discriminate].
   destruct (unit_of u) as [k|] eqn:Hu; [|discriminate]. destruct (parse_N (c :: ds)) as [n|] eqn:Hp; [|discriminate].
@@ -73,10 +74,64 @@ Qed.
 
 (* F8 inside the model: a well-formed specification whose threshold comes out as 17 hours in the release build *)
 Example F8_release_wraps :
-  parse_duration true (print_N 213503982334602 ++ [100]) = Dur 61184 /\
-  parse_duration false (print_N 213503982334602 ++ [100]) = Panic /\
-  parse_duration false (print_N 99999999999999999999 ++ [100]) = Panic.
+  parse_duration_v0 true (print_N 213503982334602 ++ [100]) = Dur 61184 /\
+  parse_duration_v0 false (print_N 213503982334602 ++ [100]) = Panic /\
+  parse_duration_v0 false (print_N 99999999999999999999 ++ [100]) = Panic.
 Proof. vm_compute. repeat split. Qed.
-Example ok_example : parse_duration false [55; 100] = Dur 604800.   (* "7d" *)
+Example ok_example : parse_duration_v0 false [55; 100] = Dur 604800.   (* "7d" *)
 Proof. vm_compute. reflexivity. Qed.
+
+
+(* ---- the repaired parser ---- *)
+Definition parse_duration (s : list N) : dres :=
+  match split_last s with
+  | Some (c :: ds, u) =>
+      if negb ((49 <=? c) && (c <=? 57)) then Invalid else
+      if negb (forallb is_digit ds) then Invalid else
+      match unit_of u, parse_N (c :: ds) with
+      | Some k, Some n =>
+          if U64 <=? n then Invalid                                 (* parse::<u64>().ok() *)
+          else if n * k <? U64 then Dur (n * k) else Invalid        (* checked_mul *)
+      | _, _ => Invalid
+      end
+  | _ => Invalid
+  end.
+
+Theorem parse_duration_ok : forall c ds u k n,
+  lead c = true -> forallb is_digit ds = true -> unit_of u = Some k -> parse_N (c :: ds) = Some n -> n * k < U64 ->
+  parse_duration (c :: ds ++ [u]) = Dur (n * k).
+Proof.
+  intros c ds u k n Hc Hd Hu Hp Hlt. unfold parse_duration.
+  change (c :: ds ++ [u]) with ((c :: ds) ++ [u]). rewrite split_last_app. fold (lead c). rewrite Hc, Hd, Hu, Hp. cbn [negb].
+  assert (1 <= k) by (unfold unit_of in Hu; destruct (u =? 109), (u =? 104), (u =? 100); inversion Hu; subst; lia).
+  assert (U64 <=? n = false) as -> by nia. assert (n * k <? U64 = true) as -> by lia. reflexivity.
+Qed.
+
+(* accepted strings are exactly [1-9][0-9]*[mhd] whose value in seconds fits u64; the value is number x unit; nothing
+   panics and nothing wraps *)
+Theorem parse_duration_inv : forall s t, parse_duration s = Dur t ->
+  exists c ds u k n, s = c :: ds ++ [u] /\ lead c = true /\ forallb is_digit ds = true /\ unit_of u = Some k /\
+    parse_N (c :: ds) = Some n /\ n * k < U64 /\ t = n * k.
+Proof.
+  intros s t H. unfold parse_duration in H. destruct (split_last s) as [[[|c ds] u]|] eqn:Es; try discriminate.
+  apply split_last_inv in Es. fold (lead c) in H. destruct (lead c) eqn:Hc; cbn [negb] in H; [|discriminate].
+  destruct (forallb is_digit ds) eqn:Hd; cbn [negb] in H; [|discriminate].
+  destruct (unit_of u) as [k|] eqn:Hu; [|discriminate]. destruct (parse_N (c :: ds)) as [n|] eqn:Hp; [|discriminate].
+  destruct (U64 <=? n) eqn:E1; [discriminate|]. exists c, ds, u, k, n.
+  destruct (n * k <? U64) eqn:E2; [|discriminate]. inversion H; subst. repeat split; auto. lia.
+Qed.
+
+Theorem parse_duration_never_panics : forall s, parse_duration s <> Panic.
+Proof.
+  intro s. unfold parse_duration. destruct (split_last s) as [[[|c ds] u]|]; try discriminate.
+  destruct (negb _); [discriminate|]. destruct (negb _); [discriminate|].
+  destruct (unit_of u); [|discriminate]. destruct (parse_N (c :: ds)); [|discriminate].
+  destruct (U64 <=? n0); [discriminate|]. destruct (_ <? U64); discriminate.
+Qed.
+
+Example F8_repaired :
+  parse_duration (print_N 213503982334602 ++ [100]) = Invalid /\
+  parse_duration (print_N 99999999999999999999 ++ [100]) = Invalid /\
+  parse_duration [55; 100] = Dur 604800.
+Proof. vm_compute. repeat split. Qed.
 Print Assumptions parse_duration_inv.
